@@ -9,6 +9,7 @@ GMode == IF "VERIF_GRAMMAR" \in DOMAIN IOEnv THEN IOEnv.VERIF_GRAMMAR ELSE "C13"
 
 nAB == <<97, 98>>   nSpace == <<97, 32, 98>>   nE == <<233>>   nEmoji == <<128512>>   nEmpty == <<>>
 nDigit == <<48>>    nUnder == <<95, 97, 49>>
+nDot == <<97, 46, 98>>   nDotSp == <<97, 46, 32, 98>>   nDots == <<46, 46, 32>>       \* a.b   a. b   ".. "  (dots and blanks INSIDE quotes mean nothing)
 \* names that need escapes in at least one quoting style
 nSq == <<97, 39>>   nDq == <<34, 98>>   nBs == <<92>>   nLf == <<97, 10>>   nCtl == <<1>>   nSlash == <<47>>   nTab == <<9>>  nVt == <<11>>
 nC1 == <<133>>  nC1b == <<97, 159>>
@@ -25,7 +26,8 @@ PlainSegs == <<N1(cA), N1(nAB), N1(nSpace), N1(nE), N1(nEmoji), N1(nEmpty), N1(n
                Child(<<SSlice(ABSENT, ABSENT, ABSENT)>>), Child(<<SSlice(1, ABSENT, ABSENT)>>), Child(<<SSlice(ABSENT, 2, ABSENT)>>),
                Child(<<SSlice(0, 2, 1)>>), Child(<<SSlice(ABSENT, ABSENT, -1)>>), Child(<<SSlice(-2, ABSENT, 2)>>), Child(<<SSlice(BIG, 0 - BIG, -1)>>),
                Child(<<SName(cA), SName(cB)>>), Child(<<SIndex(0), SWild, SSlice(1, ABSENT, ABSENT)>>), Child(<<SName(cA), SIndex(-1)>>),
-               Desc(<<SName(cA)>>), Desc(<<SWild>>), Desc(<<SIndex(0)>>), Desc(<<SName(cA), SIndex(1)>>), Desc(<<SName(nSpace)>>)>>
+               Desc(<<SName(cA)>>), Desc(<<SWild>>), Desc(<<SIndex(0)>>), Desc(<<SName(cA), SIndex(1)>>), Desc(<<SName(nSpace)>>),
+               N1(nDot), N1(nDotSp), Desc(<<SName(nDots)>>)>>
 EscSegs == <<N1(nSq), N1(nDq), N1(nBs), N1(nLf), N1(nCtl), N1(nSlash), N1(nTab), N1(nVt), N1(nBmp), N1(nHighBmp), N1(nE000),
              N1(nD7FF), N1(nSupp), N1(nMaxCp), N1(nDel), N1(nC1), N1(nC1b), Desc(<<SName(nSq)>>), Child(<<SName(nDq), SName(nSq)>>)>>
 
@@ -44,6 +46,9 @@ FilterLx == <<
    Cmp("<", EFn("length", <<EFn("value", <<ERel(<<Child(<<SWild>>)>>)>>)>>), EFn("count", <<EAbs(<<Child(<<SWild>>)>>)>>)),
    T1(EFn("match", <<RelA, Lit(JStr(<<97, 46, 42>>))>>)), LTest(TRUE, EFn("search", <<RelA, Lit(JStr(<<91, 97, 98, 93>>))>>)),
    T1(EFn("match", <<RelA, RelB>>)), T1(EFn("search", <<EFn("value", <<ERel(<<Child(<<SWild>>)>>)>>), Lit(JStr(cA))>>)),
+   T1(EFn("match", <<RelA, Lit(JStr(<<91>>))>>)), LTest(TRUE, EFn("search", <<RelA, Lit(JStr(<<42, 97>>))>>)), T1(EFn("match", <<RelA, Lit(JStr(<<40, 97>>))>>)),   \* '['  '*a'  '(a': not regular expressions - still valid queries
+   LOr(<<T1(EFn("search", <<RelA, Lit(JStr(<<97, 123, 50, 44, 49, 125>>))>>)), T1(RelB)>>),                                                                   \* search(@.a, 'a{2,1}') || @.b
+   Cmp("==", RelA, Lit(JStr(nDotSp))), Cmp("!=", RelA, Lit(JStr(nDots))), T1(EFn("match", <<RelA, Lit(JStr(<<46, 42, 32, 120>>))>>)),                            \* 'a. b'  '.. '  match(@.a, '.* x')
    LAnd(<<T1(RelA), T1(RelB)>>), LOr(<<T1(RelA), T1(RelB)>>), LOr(<<T1(RelA), LAnd(<<T1(RelB), Cmp("==", RelA, Lit(JInt(1)))>>)>>),
    LAnd(<<LParen(FALSE, LOr(<<T1(RelA), T1(RelB)>>)), LTest(TRUE, RelA)>>), LParen(TRUE, LAnd(<<T1(RelA), T1(RelB)>>)),
    LOr(<<LParen(TRUE, T1(RelA)), LParen(FALSE, Cmp("==", RelA, RelB)), T1(RelB)>>), LAnd(<<T1(RelA), T1(RelB), LTest(TRUE, AbsA)>>),
@@ -89,10 +94,14 @@ One(segs) == [i \in 1..Len(segs) |-> <<segs[i]>>]
 Two(xs, ys) == Cross2(xs, ys, LAMBDA x, y : <<x, y>>)
 Core2 == <<N1(cA), Child(<<SWild>>), I1(0), Desc(<<SName(cB)>>), Child(<<SName(cA), SIndex(1)>>), F1(T1(RelA)), F1(Cmp("==", RelA, Lit(JInt(1))))>>
 
-AstsC13 == << <<>> >> \o One(PlainSegs) \o One(FilterSegs) \o Two(Core2, Core2)
+\* names outside ASCII that both notations can spell: the reported paths of all spellings are compared with each other, too
+OddNameSegs == <<N1(nC1b), N1(nC1), N1(nBmp), Desc(<<SName(nC1b)>>), Desc(<<SName(nC1)>>)>>
+AstsC13 == << <<>> >> \o One(PlainSegs) \o One(FilterSegs) \o Two(Core2, Core2) \o One(OddNameSegs) \o << <<N1(nC1), N1(nC1b)>> >>
            \o << <<N1(cA), Desc(<<SWild>>), F1(LOr(<<T1(RelA), Cmp("<", RelB, Lit(JInt(100)))>>)), I1(0)>> >>
 AstsC06 == AstsC13 \o One(EscSegs) \o One(EscFilterSegs)
-AstsC07 == AstsC06 \o One(BadSegs)
+NonAsciiThenDesc == << <<N1(nE), Desc(<<SName(cA)>>)>>, <<N1(nEmoji), Desc(<<SIndex(0)>>)>>, <<N1(nBmp), Desc(<<SWild>>)>>,
+                       <<F1(LAnd(<<Cmp("==", RelA, Lit(JStr(nE))), T1(ERel(<<Desc(<<SName(cB)>>)>>))>>))>>, <<N1(nE), N1(nEmoji), Desc(<<SName(nE)>>)>> >>
+AstsC07 == AstsC06 \o One(BadSegs) \o NonAsciiThenDesc
 
 Asts == CASE GMode = "C13" -> AstsC13 [] GMode = "C06" -> AstsC06 [] GMode = "C07" -> AstsC07
 PickAst(i) == TRUE
@@ -111,11 +120,13 @@ MutAlphabet == IF Thorough THEN {36, 64, 46, 91, 93, 42, 63, 58, 44, 39, 34, 45,
 ExportDocs == GMode = "C13"
 
 ProbeDocs == <<
-  JObj(<<cA, nSpace, nAB, cB, nE, nEmoji>>,
-       <<JArr(<<F(15, -1), JInt(1), JObj(<<cA, cB>>, <<JInt(1), JInt(100)>>)>>), JArr(<<JObj(<<cB>>, <<JInt(100)>>)>>),
+  JObj(<<nDots, cA, nSpace, nDotSp, nDot, nAB, cB, nE, nEmoji>>,
+       <<JObj(<<nDots>>, <<JInt(7)>>), JArr(<<F(15, -1), JInt(1), JObj(<<cA, cB>>, <<JInt(1), JInt(100)>>)>>), JArr(<<JObj(<<cB>>, <<JInt(100)>>)>>),
+         JObj(<<cA>>, <<JStr(nDotSp)>>), JArr(<<JInt(8)>>),
          JInt(1), JStr(cA), JObj(<<cA>>, <<JInt(1)>>), JNull>>),
   JArr(<<JObj(<<cA, cB>>, <<JInt(1), JInt(1)>>), JObj(<<cA>>, <<JStr(cA)>>), JObj(<<cA, cB>>, <<JInt(100), JStr(nAB)>>),
          JArr(<<JInt(0), JInt(1), JInt(2)>>), JObj(<<cB>>, <<JBool(TRUE)>>), JObj(<<cA>>, <<JNull>>), JObj(<<cA>>, <<F(1, 2)>>), JInt(1),
          JObj(<<cA>>, <<JInt(230)>>), JObj(<<cA>>, <<F(3, -1)>>), JObj(<<cA>>, <<F(23, 1)>>)>>),
-  JObj(<<nEmpty, nDigit, nUnder, cA>>, <<JInt(1), JArr(<<JInt(5)>>), JObj(<<cA>>, <<JObj(<<cA>>, <<JInt(1)>>)>>), JObj(<<cA, cB>>, <<JStr(nSpace), JStr(nEmpty)>>)>>) >>
+  JObj(<<nEmpty, nDigit, nUnder, cA, nC1b, nC1, nBmp>>, <<JInt(1), JArr(<<JInt(5)>>), JObj(<<cA>>, <<JObj(<<cA>>, <<JInt(1)>>)>>), JObj(<<cA, cB>>, <<JStr(nSpace), JStr(nEmpty)>>),
+                                                     JArr(<<JInt(1)>>), JObj(<<nC1b>>, <<JInt(2)>>), JInt(3)>>) >>
 =============================================================================
